@@ -1,5 +1,7 @@
 import OpcuaVerif.Common
 import OpcuaVerif.Model.Enc
+import OpcuaVerif.Model.EncSchema
+import OpcuaVerif.Generated.Schemas
 
 /-!
 Shared driver of the codec model (properties C01, C02, C03).
@@ -11,6 +13,9 @@ Ops (tokens separated by one space):
   dec <Type> <[maxStr,maxBytes,maxArr,maxDepth,maxMsg]> x<hex>
                                      -> ok <consumed> x<hex of the re-encoded value> | err | abort | panic
   Type ∈ Variant | DataValue | DiagnosticInfo   (dec also: Chunk -> ok <consumed> x<chunk data>)
+  sdec <Struct> <opts> x<hex>        -> the same for a generated structure (schema from `Generated/Schemas.lean`),
+                                        result `ok <consumed> x<re-encoded> <byte_len>`
+  srt <Struct> x<hex>                -> `sdec` under generous limits (bytes of a valid value)
 
 Value trees are in prefix notation, one token per atom (see `harness/src/enc.rs` for the grammar).
 -/
@@ -182,7 +187,7 @@ def showDec {α : Type} (input : Bytes) (reenc : α → Bytes) : Res α → Stri
   | .fault .alloc => "abort"
   | .fault .panic => "panic"
 
-def encStep (toks : List String) : String :=
+partial def encStep (toks : List String) : String :=
   match toks with
   | "reset" :: _ => "ok"
   | "enc" :: "Variant" :: r =>
@@ -214,6 +219,16 @@ def encStep (toks : List String) : String :=
         | some (v, []) => let b := encDI true v; showDec b (encDI true) (decDI o drvCap true drvFuel 0 b)
         | _ => "bad-op"
       else "bad-op"
+  | ["srt", name, hex] => encStep ["sdec", name, "[1048576,1048576,65536,64,0]", hex]
+  | ["sdec", name, opts, hex] =>
+    match pOpts opts, hexToBytes hex, Gen.schemas.lookup name with
+    | some o, some b, some t =>
+      match decS o drvCap drvFuel t 0 b with
+      | .ok v rest => s!"ok {b.length - rest.length} x{bytesToHex (encS t v)} {lenS t v}"
+      | .err => "err"
+      | .fault .panic => "panic"
+      | .fault _ => "abort"
+    | _, _, _ => "bad-op"
   | ["dec", ty, opts, hex] =>
     match pOpts opts, hexToBytes hex with
     | some o, some b =>
